@@ -1334,6 +1334,10 @@ pub fn build(full_name: &str, level: u8) -> Option<Scenario> {
                     c.timeouts = 0;
                     c.snapfail = 0;
                 }
+                if n.contains("-busy") {
+                    // the leader's application is still building the snapshot once
+                    c.snapbusy = 1;
+                }
                 if n.contains("-unr") {
                     // the application reports the snapshot receiver unreachable once
                     c.unreach = 1;
@@ -1791,6 +1795,10 @@ pub fn build(full_name: &str, level: u8) -> Option<Scenario> {
     }
     // "-api": every public RawNode entry point is offered to a clone in every state (C20)
     s.api_probe = name.contains("-api");
+    if name.contains("-camp") {
+        // the application may call RawNode::campaign() once, on any node that may time out
+        s.caps.campaigns = 1;
+    }
     if name.contains("-adv") {
         // the application calls advance(rd) and, after the light ready, advance_apply()
         for nd in s.nodes.iter_mut() {
